@@ -402,6 +402,33 @@ IN = 'pyasn1/compat/integer.py'
 V('M-int-nonminimal', ['C01', 'C02', 'C03'], 'W.int', IN, "            bits = (~value).bit_length()", "            bits = value.bit_length()")
 V('M-tagimpl-base-format', ['C01', 'C03', 'C13'], 'C13.impl', TG, "self.__superTags[-1].tagFormat", "self.__superTags[0].tagFormat")
 
+# ---- round 2 (DESIGN.md 11.1)
+BASE = 'pyasn1/type/base.py'
+OT = 'pyasn1/type/opentype.py'
+NE = 'pyasn1/codec/native/encoder.py'
+V('M-realbase-floor-mod', ['C01'], 'W.realbase', BE, "            m *= 2 ** (abs(e) % 3 * es)", "            m *= 2 ** (e % 3)")
+V('M-realexp-no-ff', ['C01', 'C02', 'C03'], 'W.realexp', BE, "                if e == -1 and eo and not (oct2int(eo[0]) & 0x80):\n                    eo = int2oct(0xff) + eo\n", "")
+V('M-iter-insertion-order', ['C04', 'C19'], 'A10.order', UN, "        for idx in range(0, len(self)):\n            yield self.getComponentByPosition(idx)", "        return iter(self._componentValues.values())")
+V('M-components-insertion', ['C04', 'C19'], 'A10.order', UN, "        return [self._componentValues[idx]\n                for idx in sorted(self._componentValues)]", "        return list(self._componentValues.values())")
+V('M-default-extra-cond', ['C04'], 'A6.defsib', BE, "                    if namedType.isDefaulted and component == namedType.asn1Object:", "                    if namedType.isDefaulted and namedType.asn1Object.isSameTypeWith(component) and component == namedType.asn1Object:")
+V('M-cer-real-hint', ['C02', 'C03', 'C04'], 'A1.cerreal', CE, "    def _chooseEncBase(self, value):\n        m, b, e = value\n        return self._dropFloatingPoint(m, b, e)", "    binEncBase = 2")
+V('M-probe-after-seek', ['C05', 'C06', 'C08'], 'A2.probe', ST, "            more = substrate.read(1)\n            if more:\n                substrate.seek(-1, os.SEEK_CUR)\n\n            substrate.seek(-len(received), os.SEEK_CUR)\n", "            substrate.seek(-len(received), os.SEEK_CUR)\n\n            more = substrate.read(1)\n            if more:\n                substrate.seek(-1, os.SEEK_CUR)\n")
+V('M-none-is-absent', ['C17'], 'A6.omit', BE, "                if namedType.isDefaulted and component == namedType.asn1Object:\n                    if LOG:\n                        LOG('not encoding DEFAULT component %r' % (namedType,))\n                    continue\n\n                if omitEmptyOptionals:\n                    options.update(ifNotEmpty=namedType.isOptional)\n\n                componentSpec", "                if component is None and namedType.isOptional:\n                    continue\n\n                if namedType.isDefaulted and component == namedType.asn1Object:\n                    if LOG:\n                        LOG('not encoding DEFAULT component %r' % (namedType,))\n                    continue\n\n                if omitEmptyOptionals:\n                    options.update(ifNotEmpty=namedType.isOptional)\n\n                componentSpec")
+V('M-binstr-zero-digit', ['C17'], 'W.binstr', UN, "        binString = bin(self._value)[2:].lstrip('0')", "        binString = bin(self._value)[2:]")
+V('M-opentype-or', ['C18'], 'A6.mapref', OT, "        if typeMap is None:\n            self.__typeMap = {}\n        else:\n            self.__typeMap = typeMap", "        self.__typeMap = typeMap or {}")
+V('M-sizespec-any-set', ['C14'], 'C14.fold', BASE, "            elif isinstance(subtypeSpec, constraint.ConstraintsIntersection):", "            elif isinstance(subtypeSpec, constraint.AbstractConstraintSet):")
+V('M-eos-by-position', ['C11'], 'A12.eos', ST, "    else:\n        while True:\n            received = substrate.read(1)", "    else:\n        if substrate.tell() >= os.fstat(substrate.fileno()).st_size:\n            yield True\n            return\n\n        while True:\n            received = substrate.read(1)")
+V('M-proto-octets', ['C16'], 'A1.proto', DD, "        typeDecoder = typeDecoder.__class__()\n        typeDecoder.supportConstructedForm = False\n        TAG_MAP[tagSet] = typeDecoder", "        TAG_MAP[tagSet] = OctetStringPayloadDecoder()")
+V('M-native-read-unguarded', ['C12'], 'A5.encread', NE, "            if namedTypes and namedTypes[idx].isOptional and not value[idx].isValue:", "            if not value[idx].isValue and namedTypes and namedTypes[idx].isOptional:")
+V('M-frac-rstrip', ['C20'], 'A11.frac', US, "            text += '.%d' % (dt.microsecond // 1000)", "            text += ('.%d' % (dt.microsecond // 1000)).rstrip('0')")
+V('M-tagformat-last-octet', ['C01', 'C09', 'C13', 'C15'], 'W.dec', BD, "                        tagClass=tagClass, tagFormat=tagFormat, tagId=tagId", "                        tagClass=tagClass, tagFormat=integerTag & 0x20, tagId=tagId")
+V('M-clone-only-values', ['C04', 'C12', 'C19'], 'C04.clone', UN, "        for idx, componentValue in enumerate(self._componentValues):\n            if componentValue is not noValue:\n                if isinstance(componentValue, base.ConstructedAsn1Type):\n                    myClone", "        for idx, componentValue in enumerate(self._componentValues):\n            if componentValue is not noValue and componentValue.isValue:\n                if isinstance(componentValue, base.ConstructedAsn1Type):\n                    myClone")
+V('M-bits-zero-segment', ['C01', 'C02', 'C09'], 'W.bits', UN, "        value = SizedInteger(integer.from_bytes(value) >> padding).setBitLength(len(value) * 8 - padding)\n\n        if prepend is not None:\n            value = SizedInteger(", "        value = SizedInteger(integer.from_bytes(value) >> padding).setBitLength(len(value) * 8 - padding)\n\n        if prepend is not None and not value:\n            value = SizedInteger(prepend).setBitLength(len(prepend))\n\n        elif prepend is not None:\n            value = SizedInteger(")
+V('M-sortkey-effective', ['C03', 'C04'], 'A9.set', DE, "                return component.getComponent().tagSet[-1:]", "                return component.effectiveTagSet")
+V('M-sortkey-one-arm-recursive', ['C03', 'C17'], 'A9.dyn', DE, "                return asn1Spec[names[0]].tagSet[-1:]", "                return SetEncoder._componentSortKey((component[names[0]], asn1Spec[names[0]]))")
+V('M-mask-eos', ['C06'], 'A3.mask', BD, "            for component in decodeFun(\n                    substrate, self.protoComponent, substrateFun=substrateFun,\n                    **options):\n                if isinstance(component, SubstrateUnderrunError):\n                    yield component\n\n            if not component:\n                raise error.PyAsn1Error('Empty BIT STRING segment')\n\n            trailingBits = oct2int(component[0])\n            if trailingBits > 7:\n                raise error.PyAsn1Error(\n                    'Trailing bits overflow", "            try:\n                for component in decodeFun(\n                        substrate, self.protoComponent, substrateFun=substrateFun,\n                        **options):\n                    if isinstance(component, SubstrateUnderrunError):\n                        yield component\n            except error.PyAsn1Error as exc:\n                raise error.PyAsn1Error('Malformed BIT STRING segment: %s' % (exc,))\n\n            if not component:\n                raise error.PyAsn1Error('Empty BIT STRING segment')\n\n            trailingBits = oct2int(component[0])\n            if trailingBits > 7:\n                raise error.PyAsn1Error(\n                    'Trailing bits overflow")
+V('M-mark-relative', ['C11'], 'A12.mark', ST, "            self._markedPosition = 0\n\n    def tell(self):\n        return self._cache.tell()", "            self._markedPosition = 0\n\n    def tell(self):\n        return self._cache.tell() + self._markedPosition")
+
 # --------------------------------------------------------------------------- runner
 
 def _copy_tree(repo, dest):
@@ -462,6 +489,8 @@ def _run_variant(args):
             rc, ev, lines, ctx = core.run_property(pid, props.PROPS[pid], 'quick', tmp)
         except AnalysisError as e:
             return (variant['id'], 'analysis-error', str(e))
+        if rc == 2:
+            return (variant['id'], 'analysis-error', '; '.join(ev['coverage'].get('undecided', []))[:300])
         return (variant['id'], 'ran', _digest((rc, ev)))
     finally:
         shutil.rmtree(tmp, ignore_errors=True)
